@@ -39,7 +39,7 @@ def main():
            "are designed (DESIGN.md section 7) but not built; nothing is claimed for it")} for p in props if p not in CHECKS]
     man = {
         "version": 1,
-        "setup_cmd": "cd /verif/coq && coq_makefile -f _CoqProject -o Makefile && timeout 3000 make -j16",
+        "setup_cmd": "/verif/tools/setup.sh",
         "hooks": {"guard": "MOLLI_VERIF", "enable": "no hooks are needed: every observation is made from outside (mocks, stream wrappers, scripted commands)",
                   "baseline_off_cmd": "/verif/tools/baseline.sh", "source_commits": [], "add_only": True},
         "engines": [{"name": "coq-proof+correspondence", "path": "/verif/check",
